@@ -34,6 +34,7 @@ func runC07(w *core.World, r *core.Report) {
 	r.Rule("R1", "live fields of State/Cache are in the CBOR snapshot (exported, not tagged out), or in the checked exception table")
 	r.Rule("R2", "request-state fields of Vm/Page/Menu/Sizer read on the run/render path are re-initialised on every path through the resume block")
 	r.Rule("R4", "Serialize/Deserialize and Save/Load are symmetric")
+	r.Rule("R8", "the configured default language is applied before the stored session is loaded, never after")
 	r.Rule("R7", "a refused State.Restart changes nothing: no store of Restart can be followed by one of its error returns")
 	r.Rule("R6", "per-request and long-lived engines agree on what the unpersisted engine sees: language injected after the state is loaded (C18 R2); the output-pending mark DIRTY is raised only by Vm.Run")
 	r.Rule("R5", "constructing the VM and renderer (once per engine, i.e. per request in persisted operation) has no effect on persisted State/Cache")
@@ -239,6 +240,7 @@ func runC07(w *core.World, r *core.Report) {
 		r.Check(bad == "", "R7", "state.(*State).Restart: a refusal leaves the state untouched", badPos, "every write lies behind the refusal test",
 			"Restart changes the state (reserved flags, input, page index) although it then refuses: the engine's reset ignores the refusal, WAIT is gone and a long-lived engine skips the resume block that a per-request engine does not need: "+bad)
 	}
+	checkConfigLanguageBeforeLoad(w, r, "R8")
 }
 
 func unexportedNested(t types.Type, depth int) string {
